@@ -84,7 +84,7 @@ $(B)/$(1)/detsim/%.o: $(ROOT)/detsim/%.cpp | gen
 	$(CXX) $(HARNSTD) $(BASEFLAGS) $$(FLAGS_$(1)) -MMD -MP -c $$< -o $$@
 $(B)/$(1)/engines/%.o: $(ROOT)/engines/%.cpp | gen
 	@mkdir -p $$(dir $$@)
-	$(CXX) $(HARNSTD) $(BASEFLAGS) $$(FLAGS_$(1)) $$(ENGFLAGS_$(1)) -MMD -MP -c $$< -o $$@
+	$(CXX) $(HARNSTD) $(BASEFLAGS) -fno-access-control $$(FLAGS_$(1)) $$(ENGFLAGS_$(1)) -MMD -MP -c $$< -o $$@
 ENGINE_OBJ_$(1) := $$(addprefix $(B)/$(1)/repo/,$$(addsuffix .o,$(ENGINE_SRC))) \
                    $$(addprefix $(B)/$(1)/gen/,$$(addsuffix .o,$(GEN_SRC)))
 DETSIM_OBJ_$(1) := $$(addprefix $(B)/$(1)/detsim/,$$(addsuffix .o,$(DETSIM_SRC) $$(EXTRA_DETSIM_$(1))))
